@@ -43,8 +43,26 @@ def judge_pair(case) -> Verdict:
     if len(nr) != 4 or not all(isinstance(x, bool) for x in nr):
         raise Invalid()
     # the numeric rendering switches of either entry are spelling only
-    t = A.build_ace(top, platform, protocol_nr=nr[0], port_nr=nr[1])
-    b = A.build_ace(bottom, platform, protocol_nr=nr[2], port_nr=nr[3])
+    def build(rec, std, **kw):
+        if not std:
+            return A.build_ace(rec, platform, **kw)
+        # the entry written in the standard form 'action source [log]' (matches every protocol and destination)
+        from cisco_acl import Ace
+
+        src = rec["src"]
+        if rec["proto"] != 0 or rec.get("sp") or rec.get("dp") or rec.get("flags") or rec.get("opq") or rec["dst"]["k"] != "any" \
+                or src["k"] not in ("any", "host", "prefix", "wild") or not R.is_contiguous(src["w"]) or platform != "ios" \
+                or not G.addr_is_native(src, platform):
+            raise Invalid()
+        ace = Ace(" ".join([rec["action"], G.render_addr(src, platform)] + list(rec.get("logs") or [])), platform=platform)
+        if ace.type != "standard":
+            raise Invalid()
+        return ace
+
+    t = build(top, bool(case.get("std_top")), protocol_nr=nr[0], port_nr=nr[1])
+    b = build(bottom, bool(case.get("std_bottom")), protocol_nr=nr[2], port_nr=nr[3])
+    if case.get("std_top") or case.get("std_bottom"):
+        v.label("standard-form-entry")
     for skip in A.SKIPS:
         want = A.oracle_cover(bottom, top, skip)
         got = b.shadow_of(t, skip=skip)
@@ -93,6 +111,20 @@ def pair_st(draw, tier):
     case = {"top": top, "bottom": bottom, "platform": platform}
     if draw(st.sampled_from(range(3))) == 1:
         case["nr"] = [draw(st.booleans()) for _ in range(4)]
+    if platform == "ios" and draw(st.integers(0, 11)) == 6:
+        # one side (or both) in the standard form: ip, every destination, one contiguous source
+        which = draw(st.sampled_from(["bottom", "bottom", "top", "both"]))
+        for name, rec in (("top", top), ("bottom", bottom)):
+            if which in (name, "both"):
+                src = rec["src"]
+                if src["k"] == "group" or not R.is_contiguous(src["w"]):
+                    src = {"k": "prefix", "b": src.get("b", 0) & ~0xFF & R.ALL1, "w": 0xFF}
+                rec.update(proto=0, pn=0, sp=None, dp=None, flags=[], opq=[], dst={"k": "any", "b": 0, "w": R.ALL1},
+                           src=G.native_addr(G.addr_pair(src), platform))
+                rec.pop("lf", None)
+                case["std_" + name] = True
+        if draw(st.booleans()):
+            bottom["action"] = top["action"]
     return case
 
 
@@ -128,9 +160,33 @@ def judge_report(case) -> Verdict:
             if A.ambiguous(bot, top):
                 v.exclude("port-universe-sliver")
                 return v
+    from cisco_acl import Ace
+
+    late = case.get("late") or []
+    for r in late:
+        G.validate_rec(r, platform)
+        if G.rec_has_group(r) or R.rule_is_empty(G.rec_rule(r)) or any(f not in R.TCP_FLAGS for f in r.get("flags") or []):
+            raise Invalid()
     body = [G.render_ace(r, platform, noise=False) for r in recs]
-    acl = Acl(A.acl_header(platform) + "\n" + "\n".join(" " + s for s in body), platform=platform)
-    lines = [o.line for o in acl.items]
+    heads = sorted(set(h % (len(body) + 1) for h in case.get("headings") or []))
+    if heads:
+        # the ACL grouped by remark headings; the report looks inside the blocks, in rendered order
+        for n_, h in enumerate(reversed(heads)):
+            body.insert(h, f"remark = H{len(heads) - n_}")
+        acl = Acl(A.acl_header(platform) + "\n" + "\n".join(" " + s for s in body), platform=platform, group_by="= ")
+        v.label("grouped-by-headings")
+    else:
+        acl = Acl(A.acl_header(platform) + "\n" + "\n".join(" " + s for s in body), platform=platform)
+    for r in late:
+        # an entry appended to the built ACL is the last one, whatever blocks stand before it
+        acl.append(Ace(G.render_ace(r, platform, noise=False), platform=platform))
+    recs = list(recs) + list(late)
+    for i, top in enumerate(recs):
+        for bot in recs[i + 1:]:
+            if A.ambiguous(bot, top):
+                v.exclude("port-universe-sliver")
+                return v
+    lines = [o.line for o in A.flat_items(acl.items) if isinstance(o, Ace)]
     if len(lines) != len(recs):
         raise Invalid()
     if any(not G.addr_is_native(r[s_], platform) for r in recs for s_ in ("src", "dst")):
@@ -189,8 +245,17 @@ def report_st(draw, tier):
             nums.sort()
         for r, n in zip(recs, nums):
             r["seq"] = n if mode != "some" or draw(st.booleans()) else 0
-    return {"aces": recs, "platform": platform, "skip": draw(st.sampled_from(A.SKIPS)),
+    case = {"aces": recs, "platform": platform, "skip": draw(st.sampled_from(A.SKIPS)),
             "warmup": draw(st.lists(st.integers(0, 4), max_size=3))}
+    if draw(st.sampled_from(range(4))) == 2:
+        case["headings"] = draw(st.lists(st.integers(0, 10), min_size=1, max_size=3))
+    if draw(st.sampled_from(range(4))) == 1:
+        # appended afterwards: a copy or a narrowed copy of an entry that is already there (so something covers it)
+        base = draw(st.sampled_from(recs))
+        twin = dict(base, seq=0) if draw(st.booleans()) else G.to_native(
+            dict(draw(G.mutate_ace(base, platform, kmax=3, established=False)), seq=0), platform)
+        case["late"] = [twin]
+    return case
 
 
 SUBS = [
